@@ -260,6 +260,8 @@ def b_len(eng, st, a, kw):
         return IntV(v.n)
     if isinstance(v, TupV):
         return IntV(len(v))
+    if isinstance(v, ObjV) and "__len__" in v.fields:
+        return v.fields["__len__"]  # opaque container whose size is a ghost (spec) value
     if isinstance(v, ObjV) and "pattern" in v.fields:
         return IntV(v.fields["pattern"].n)  # MeshPatt.__len__ = len(self.pattern)  (closed world: checked by frames.closed_world)
     raise Unsupported(f"len({v!r})")
